@@ -37,7 +37,31 @@ pub struct Node {
     pub clock: Rc<Cell<Option<u64>>>,
 }
 
+/// The content status every simulated node reports for a content hash (a fixed function of
+/// the content, so that the status a receiver is told can be predicted).
+pub fn status_of(hash: &iroh_blobs::Hash) -> iroh_docs::ContentStatus {
+    use iroh_docs::ContentStatus::*;
+    if *hash == crate::world::content(1).0 {
+        Complete
+    } else if *hash == crate::world::content(2).0 {
+        Incomplete
+    } else if *hash == iroh_blobs::Hash::EMPTY {
+        Complete
+    } else {
+        Missing
+    }
+}
+
 impl Node {
+    /// Like `start`, with a content-status callback installed (as the engine does with its blob store).
+    pub fn start_with_status(store: Store) -> Node {
+        let clock = Rc::new(Cell::new(Some(1_000_000u64)));
+        let cb: iroh_docs::ContentStatusCallback = std::sync::Arc::new(|hash: iroh_blobs::Hash| Box::pin(async move { status_of(&hash) }));
+        let (handle, fut) = SyncHandle::verif_new_local(store, Some(cb));
+        let task = tokio::task::spawn_local(WithClock { clock: clock.clone(), inner: Box::pin(fut) });
+        Node { handle, task, clock }
+    }
+
     pub fn start(store: Store) -> Node {
         let clock = Rc::new(Cell::new(Some(1_000_000u64)));
         let (handle, fut) = SyncHandle::verif_new_local(store, None);
